@@ -319,6 +319,14 @@ func (o *obs) key(ObsMask) {
 		case !ok && !errors.Is(oerr, klevdb.ErrNotFound):
 			w.failf("C09", "OffsetByKey(%q) = (%d, %v), want ErrNotFound", key, off, oerr)
 		}
+		// the relative cursor "newest": caught up, nothing to return (like Consume)
+		for _, mc := range []int64{1, 40} {
+			next, msgs, err := w.L.ConsumeByKey(key, klevdb.OffsetNewest, mc)
+			o.rec("keynewest %d %d -> %d %d %s", ki, mc, next, len(msgs), errClass(err))
+			if err != nil || len(msgs) != 0 || next != w.M.Next {
+				w.failf("C09", "ConsumeByKey(%q, OffsetNewest, %d) = (%d, %d msgs, %v), want (%d, none)", key, mc, next, len(msgs), err, w.M.Next)
+			}
+		}
 		// cursor from OffsetOldest
 		for _, mc := range []int64{1, 40} {
 			var got []model.Msg
